@@ -95,6 +95,8 @@ MonoVerdict(ev) ==
   ELSE IF \E i \in 1..(Len(ev.aph6) - 1) : ev.aph6[i] > ev.aph6[i + 1] + 1 THEN "aph-decreased"
   ELSE IF \E i \in 1..(Len(ev.map6) - 1) : ev.map6[i] > ev.map6[i + 1] + 1 THEN "map-decreased"
   ELSE IF \E i \in 1..Len(ev.subset) : ev.subset[i] # 1 THEN "tp-lost"
+  \* pfeq[i] = 1: at rung i the frame-level pass/fail result holds exactly the TPs / FNs of the threshold decisions
+  ELSE IF \E i \in 1..Len(ev.pfeq) : ev.pfeq[i] # 1 THEN "pass-fail-result-differs-from-the-threshold-decisions"
   ELSE "ok"
 
 NoCur == [tid |-> 0]
